@@ -34,6 +34,8 @@ def lifecycle_scenarios(depth, tier):
                 options.append(('report', i, 0))
             if i != 0:
                 options.append(('verify', i, 0))
+                if tier != 'thorough':
+                    options.append(('noverify', i, 0))      # also on a clone of an original whose verification was already disabled
             if len(alive) < 3:
                 options.append(('clone', i, 0))
         options.append(('verify', 0, 1)) if 0 in alive else None
